@@ -20,6 +20,10 @@ CLAIMED = {
  'C10': dict(text='Proof (Coq), for every number instance: every operation of the session state machine (succeeding or raising) and hence every history leaves every existing number unchanged except its uncertainty cache; reads are idempotent; variance = covariance(y,y). Full history independence is refuted with a witness (stale cache after a later set_correlation: known finding); the restricted claim is validated by a history-pair oracle and correspondence.',
              note='Coq kernel, Reals axioms only for the refutation witness, correspondence harness.',
              technique='Coq proof (case analysis over all operations + induction over histories) + bit-exact correspondence', ref='6 C10'),
+
+ 'C05': dict(text='Proof (Coq): the Welch-Satterthwaite loop of the model returns (sum v)^2/sum v^2/nu for any number of independent inputs with any mix of finite/infinite dof (NaN iff variance 0, inf iff no finite-dof term), and inf with the LPU variance when every influence has infinite dof. The ensemble/complex-pair case analysis of the loop (faithfully modelled, incl. its assertion paths) is tied to lib.py by bit-exact correspondence and compared with an exact group specification by the oracle; Willink-Hall: oracle only. Three grouping defects for complex inputs are known findings.',
+             note='Coq kernel, Reals axioms, correspondence harness; the group theorem for ensembles is not proved (partial).',
+             technique='Coq proof (induction on the component list) for the independent case + bit-exact correspondence of the full loop model', ref='6 C05'),
 }
 NA_REASON = 'machinery for this property is not built yet in this revision (planned: see DESIGN.md section 6); not claimed until its check exists'
 m = {
